@@ -18,9 +18,10 @@ RULE = (
     "starts) or partly matched at the exchange with the stream update still outstanding x cancel reports reversed / one missing x transport fault on attempts 1..4 (connection error, HTTP 500, "
     "garbage body, JSON-RPC error, error after the exchange applied the request). SIMULATED (stepped "
     "FlumineSimulation): kind x size 1-3 x per-order fate between request and execution (none / fully matched / lapsed "
-    "on suspension / voided by runner removal) x market OPEN or SUSPENDED at execution. Both tiers enumerate the whole "
-    "space (about 44k combinations). Non-trivial: every combination with a non-SUCCESS "
-    "element, a transport fault or an order completed in between; distinct = the enumerated tuple."
+    "on suspension / voided by runner removal) x market OPEN or SUSPENDED at execution. The quick tier enumerates the whole "
+    "space for packages of 1-3 (about 44k combinations). Non-trivial: every combination with a non-SUCCESS "
+    "element, a transport fault or an order completed in between; distinct = the enumerated tuple. The thorough tier "
+    "adds packages of four orders (transport faults on the first attempt only)."
 )
 ASSUMPTIONS = [
     "the exchange double answers with the documented JSON-RPC shapes; reports may be reordered / dropped only for cancelOrders (as the property states)",
@@ -39,7 +40,7 @@ INFLIGHT = ("CANCELLING", "UPDATING", "REPLACING")
 def live_combos(tier):
     out = []
     for kind, outs in (("place", PLACE_OUT), ("cancel", CANCEL_OUT), ("update", UPDATE_OUT), ("replace", REPLACE_OUT)):
-        for n in (1, 2, 3):
+        for n in ((1, 2, 3) if tier == "quick" else (1, 2, 3, 4)):  # thorough: packages of four as well
             for oc in itertools.product(outs, repeat=n):
                 subsets = [()] if kind == "place" else [s for r in range(n + 1) for s in itertools.combinations(range(n), r)]
                 for done in subsets:
@@ -48,7 +49,7 @@ def live_combos(tier):
                         reps = ["normal", "reversed", "drop0"] if (kind == "cancel" and n > 1) else ["normal"]
                         for rep in reps:
                             for tr in TRANSPORT:
-                                if tr and (rep != "normal" or (n == 3 and tr[0] == 3)):
+                                if tr and (rep != "normal" or (n >= 3 and tr[0] == 3)) or (n == 4 and tr and tr[0] != 1):
                                     continue
                                 out.append({"world": "live", "kind": kind, "n": n, "outcomes": list(oc), "done": list(done), "when": when,
                                             "reports": rep, "transport": list(tr) if tr else None, "async": False})
@@ -70,10 +71,10 @@ def sim_combos(tier):
     out = []
     fates = ["none", "matched", "lapsed", "voided"]
     for kind in ("place", "cancel", "update", "replace"):
-        for n in (1, 2, 3):
+        for n in ((1, 2, 3) if tier == "quick" else (1, 2, 3, 4)):
             for fs in itertools.product(fates if kind != "place" else ["none", "voided"], repeat=n):
                 for status in ("OPEN", "SUSPENDED"):
-                    for pers in (("LAPSE",) * n, ("PERSIST",) * n) if n == 1 else (("LAPSE",) * n, ("PERSIST", "LAPSE", "PERSIST")[:n]):
+                    for pers in (("LAPSE",) * n, ("PERSIST",) * n) if n == 1 else (("LAPSE",) * n, ("PERSIST", "LAPSE", "PERSIST", "LAPSE")[:n]):
                         out.append({"world": "sim", "kind": kind, "n": n, "fates": list(fs), "exec_status": status, "pers": list(pers)})
                         if kind == "place" and n <= 2:
                             # the placements go into a trade that had already completed (a hedge added later)
